@@ -341,3 +341,53 @@ Proof.
   exists (tot - 2147483648 * pos), 0. split; [lia|]. split; [clear - R0 P103; lia|]. change (iz (2 ^ 0)) with 1%Q. push_iz. field.
 Qed.
 End Rounded3.
+
+(* ------------------------------------------------------------------------------------------------------------------------
+   C02 / C17: rate_t3 computes with CPython floats.  For every rounding operator that fixes binary64 numbers, all its intermediate
+   values are half-integers below 2^52 on the domain (|(2 accel - jerk) T| <= 2^50, |jerk| T^2 <= 2^50: the rate change of a move
+   whose rates stay within 32 bits), so the float computation is the exact one. *)
+Section Float.
+Variable rnd : Q -> Q.
+Hypothesis rnd_comp : forall x y, (x == y)%Q -> (rnd x == rnd y)%Q.
+Hypothesis rnd_exact : forall x, rep53 x -> (rnd x == x)%Q.
+Lemma rnd_id53 x y : (x == y)%Q -> rep53 y -> (rnd x == y)%Q.
+Proof. intros E R. rewrite (rnd_comp x y E). apply rnd_exact, R. Qed.
+Lemma rep53_half k : Z.abs k < 2 ^ 53 -> rep53 (iz k / 2).
+Proof. intros H. exists k, 1. split; [lia|]. split; [exact H|]. reflexivity. Qed.
+
+Lemma abs_mul_le' a b A B : Z.abs a <= A -> Z.abs b <= B -> Z.abs (a * b) <= A * B.
+Proof. intros Ha Hb. rewrite Z.abs_mul. apply Z.mul_le_mono_nonneg; lia. Qed.
+
+Theorem rate_t3_float_exact time rate accel jerk :
+  0 <= time <= 2 ^ 32 -> Z.abs rate <= 2 ^ 34 -> Z.abs accel <= 2 ^ 32 -> Z.abs jerk <= 2 ^ 32 ->
+  Z.abs (2 * accel - jerk) * time <= 2 ^ 50 -> Z.abs jerk * time * time <= 2 ^ 50 ->
+  rate_t3_r rnd time rate accel jerk = rate_t3 time rate accel jerk.
+Proof.
+  intros Ht Hr Ha Hj Hat Hjt. unfold rate_t3_r, rate_t3. destruct (time =? 0); [reflexivity|]. cbv zeta.
+  set (h := Z.quot accel 2). set (j6 := Z.quot jerk 6).
+  assert (Hh : Z.abs h <= 2 ^ 31) by (unfold h; pose proof (Z.quot_rem' accel 2); pose proof (Z.rem_bound_abs accel 2 ltac:(lia)); change (2 ^ 31) with 2147483648; change (2 ^ 32) with 4294967296 in *; lia).
+  assert (Hj6 : Z.abs j6 <= 2 ^ 30) by (unfold j6; pose proof (Z.quot_rem' jerk 6); pose proof (Z.rem_bound_abs jerk 6 ltac:(lia)); change (2 ^ 30) with 1073741824; change (2 ^ 32) with 4294967296 in *; lia).
+  change (2 ^ 31) with 2147483648 in *. change (2 ^ 30) with 1073741824 in *. change (2 ^ 32) with 4294967296 in *. change (2 ^ 34) with 17179869184 in *. change (2 ^ 50) with 1125899906842624 in *.
+  assert (P53 : 2 ^ 53 = 9007199254740992) by reflexivity.
+  assert (B1 : Z.abs ((2 * accel - jerk) * time) <= 1125899906842624) by (rewrite Z.abs_mul, (Z.abs_eq time) by lia; exact Hat).
+  assert (B2 : Z.abs (jerk * time * time) <= 1125899906842624) by (rewrite !Z.abs_mul, (Z.abs_eq time) by lia; exact Hjt).
+  assert (E1 : (rnd (iz jerk / 2) == iz jerk / 2)%Q) by (apply rnd_id53; [reflexivity|apply rep53_half; lia]).
+  assert (E2 : (rnd (iz accel - rnd (iz jerk / 2)) == iz (2 * accel - jerk) / 2)%Q) by (apply rnd_id53; [rewrite E1; push_iz; field|apply rep53_half; lia]).
+  assert (E3 : (rnd (rnd (iz accel - rnd (iz jerk / 2)) * iz time) == iz ((2 * accel - jerk) * time) / 2)%Q) by (apply rnd_id53; [rewrite E2; push_iz; field|apply rep53_half; lia]).
+  set (i1 := rate - h + j6).
+  assert (E4 : (rnd (iz i1 + rnd (rnd (iz accel - rnd (iz jerk / 2)) * iz time)) == iz (2 * i1 + (2 * accel - jerk) * time) / 2)%Q).
+  { apply rnd_id53; [rewrite E3; push_iz; field|apply rep53_half; unfold i1; lia]. }
+  assert (E5 : (rnd (iz (jerk * time * time) / 2) == iz (jerk * time * time) / 2)%Q) by (apply rnd_id53; [reflexivity|apply rep53_half; lia]).
+  assert (E6 : (rnd (rnd (iz i1 + rnd (rnd (iz accel - rnd (iz jerk / 2)) * iz time)) + rnd (iz (jerk * time * time) / 2))
+                == iz (2 * i1 + (2 * accel - jerk) * time + jerk * time * time) / 2)%Q).
+  { apply rnd_id53; [rewrite E4, E5; push_iz; field|apply rep53_half; unfold i1; lia]. }
+  assert (EQ : (rnd (rnd (iz i1 + rnd (rnd (iz accel - rnd (iz jerk / 2)) * iz time)) + rnd (iz (jerk * time * time) / 2))
+               == iz rate - iz h + iz j6 + (iz accel - iz jerk / 2) * iz time + iz jerk * iz time * iz time / 2)%Q).
+  { rewrite E6. unfold i1. push_iz. field. }
+  unfold Qround_he. rewrite (Qfloor_comp _ _ EQ).
+  set (X := (iz rate - iz h + iz j6 + (iz accel - iz jerk / 2) * iz time + iz jerk * iz time * iz time / 2)%Q) in *.
+  set (Y := rnd (rnd (iz i1 + rnd (rnd (iz accel - rnd (iz jerk / 2)) * iz time)) + rnd (iz (jerk * time * time) / 2))) in *.
+  assert (EC : (Y - inject_Z (Qfloor X) ?= 1 # 2)%Q = (X - inject_Z (Qfloor X) ?= 1 # 2)%Q) by (rewrite EQ; reflexivity).
+  rewrite EC. reflexivity.
+Qed.
+End Float.
